@@ -197,7 +197,16 @@ def case_engine(case, res):
     others = [k for k in SHAPES if k not in keys]
     kers = [ker]
     if case["co_kernel"] and others:
-        kers.insert(case["co_first"], gs.RWKernel(others[:2], initial_step_size=0.5))
+        if case["idx"] % 2:
+            # a second gradient-based kernel with its own mass matrix, and user identifiers in non-alphabetical order
+            K2 = gs.HMCKernel if case["kernel"] == "nuts" else gs.NUTSKernel
+            kw2 = {"num_integration_steps": 3} if K2 is gs.HMCKernel else {"max_treedepth": 3}
+            co = K2(others[:2], initial_step_size=0.2, mm_diag=diag, **kw2)
+            kers.insert(case["co_first"], co)
+            for j, k_ in enumerate(kers):
+                k_.identifier = f"user_{'zyx'[j]}"
+        else:
+            kers.insert(case["co_first"], gs.RWKernel(others[:2], initial_step_size=0.5))
     for k_ in kers:
         b.add_kernel(k_)
     spec = case["spec"]
@@ -205,27 +214,30 @@ def case_engine(case, res):
     eng = b.build()
     eng.sample_all_epochs()
     r = eng.get_results()
-    kidx = kers.index(ker)
-    ks = r.kernel_states.unwrap().combine_all().unwrap()[kidx]
-    imm = np.asarray(ks.inverse_mass_matrix)      # [C, T, ...]
     state0 = {k: jnp.zeros(SHAPES[k], jnp.float32) for k in SHAPES}
-    cmap = coord_map(ker, state0)
-    t0 = 1
-    w = {"kernel": case["kernel"], "listing_order": keys, "diag": diag, "schedule": spec, "co_kernel": case["co_kernel"],
-         "flat_coordinates": [f"{k}[{j}]" for k, j in cmap]}
-    for ei, (ty, d, _k) in enumerate(spec, start=1):
-        if ty == 2 and t0 + d < imm.shape[1]:
-            pos = r.positions.get_specific_chain(ei).get().unwrap()
-            for c in range(2):
-                hist = {k: np.asarray(pos[k])[c] for k in keys}
-                X = flat_matrix(hist, cmap)
-                M = imm[c, t0 + d]   # first snapshot of the following epoch
-                res.mon("engine_tuned_matrix_matches_history")
-                judge_matrix(res, M, X, diag, f"engine run, slow epoch {ei}, chain {c}", w)
-                v = X.var(axis=0, ddof=1)
-                if keys != sorted(keys) and v.max() / max(v.min(), 1e-12) > 10:
-                    res.nontriv(("eng", case["kernel"], tuple(keys), diag, ei))
-        t0 += d
+    all_ks = r.kernel_states.unwrap().combine_all().unwrap()
+    for kern in [k_ for k_ in kers if hasattr(k_, "mm_diag")]:
+        kidx = kers.index(kern)
+        kkeys = list(kern.position_keys)
+        imm = np.asarray(all_ks[kidx].inverse_mass_matrix)      # [C, T, ...]
+        cmap = coord_map(kern, state0)
+        t0 = 1
+        w = {"kernel": type(kern).__name__, "listing_order": kkeys, "diag": diag, "schedule": spec, "co_kernel": case["co_kernel"],
+             "identifiers": [k_.identifier for k_ in kers], "flat_coordinates": [f"{k}[{j}]" for k, j in cmap]}
+        for ei, (ty, d, _k) in enumerate(spec, start=1):
+            if ty == 2 and t0 + d < imm.shape[1]:
+                pos = r.positions.get_specific_chain(ei).get().unwrap()
+                for c in range(2):
+                    hist = {k: np.asarray(pos[k])[c] for k in kkeys}
+                    X = flat_matrix(hist, cmap)
+                    M = imm[c, t0 + d]   # first snapshot of the following epoch
+                    res.mon("engine_tuned_matrix_matches_history")
+                    judge_matrix(res, M, X, diag, f"engine run, kernel {kern.identifier}, slow epoch {ei}, chain {c}", w)
+                    v = X.var(axis=0, ddof=1)
+                    if kkeys != sorted(kkeys) and v.max() / max(v.min(), 1e-12) > 10:
+                        res.nontriv(("eng", type(kern).__name__, tuple(kkeys), diag, ei))
+            t0 += d
+    w = {"kernel": case["kernel"], "listing_order": keys, "diag": diag, "schedule": spec, "co_kernel": case["co_kernel"]}
     res.sample = dict(w, kind="engine")
 
 
@@ -238,7 +250,7 @@ def gen_cases(tier, seed):
         k = int(rng.integers(1, 5))
         keys = [str(x) for x in rng.choice(names, size=k, replace=False)]
         cases.append({"kind": "protocol", "idx": i, "seed": seed, "keys": keys, "diag": bool(i % 2), "kernel": "nuts" if i % 4 < 2 else "hmc",
-                      "T": int(rng.integers(8, 60)), "n_extra": int(rng.integers(0, 3)), "with_extra": bool(rng.random() < 0.6), "cost": 2})
+                      "T": int(rng.integers(8, 60)) if i % 5 else int(rng.integers(3, 8)), "n_extra": int(rng.integers(0, 3)), "with_extra": bool(rng.random() < 0.6), "cost": 2})
     for i in range(8 if q else 60):
         rng = rng_for(seed, "c12-geneng", i)
         k = int(rng.integers(2, 4))
